@@ -63,3 +63,14 @@ Theorem C04_skeleton_traits :
      ("o2o::traits::IntoExisting", "into_existing", false); ("o2o::traits::TryIntoExisting", "try_into_existing", true)]%string.
 Proof. exact skeleton_traits. Qed.
 Print Assumptions C04_skeleton_traits.
+
+(* lifted to the generated code (Lemmas/OrderLift.v): writing the trait instructions in another order only permutes the generated
+   impls - the same impls, token for token, none missing, none extra *)
+From O2o.Lemmas Require Import ShortcutLift OrderLift.
+
+Theorem C04_order_whole_impl : forall d l' impls,
+    Permutation (d_attrs (dt_get_attrs d)) l' ->
+    mapM (expand_impl d) (impl_contexts d) = Ok impls ->
+    exists impls', mapM (expand_impl (set_trait_attrs d l')) (impl_contexts (set_trait_attrs d l')) = Ok impls' /\ Permutation impls impls'.
+Proof. exact reordered_instructions_permute_the_impls. Qed.
+Print Assumptions C04_order_whole_impl.
